@@ -68,7 +68,10 @@ def run(tier):
         "modelled, not verified: src/writer/{page,column,row_group,file}_writer.c; the Thrift encoders enter the proofs as uninterpreted functions (the structural clauses are about offsets, sizes, counts and CRCs around them), their bytes are C13",
     ]
     rep.cov["rule"] = ("same generator as C01 (corpus/file + corpus/C05 first; targeted shapes; exhaustive write histories for "
-                       "small tables; random tables x 5 codecs x page sizes x row-group cuts); every history is written twice; "
+                       "small tables; boundary sizes 64 / 8192 (thorough 2^20) +-1 for counts, page bytes, chunk offsets; random "
+                       "tables x 5 codecs x page sizes x row-group cuts); every history is written twice in different processes "
+                       "with different heap fill patterns; sequences T, U1..Uk, T in ONE process (U = perturbed copies of T, other "
+                       "codecs, unrelated tables) with T compared byte for byte; "
                        "non-trivial = the history denotes a table with at least one row; distinct by full case text")
     try:
         fc.driver()
@@ -79,6 +82,7 @@ def run(tier):
     cases = [c for _, c, _ in corpus] + wc.gen_cases(tier, rng)
     log(f"C05: {len(cases)} write histories ({len(corpus)} from the corpus), each written twice")
     written = check_cases(rep, cases)
+    wc.check_history_determinism(rep, rng, tier)
     for c in (cases[len(corpus)], cases[len(cases) // 2], cases[-1]):
         rep.sample(wc.case_summary(c))
     wc.model_tie(rep, written)
@@ -88,6 +92,8 @@ def run(tier):
 def replay(path):
     j = json.loads(Path(path).read_text())
     r = j.get("replay") or j
+    if r.get("kind") == "history-determinism":
+        return wc.replay_history_determinism(r)
     if "case" not in r:
         print(json.dumps(j, indent=1)[:3000])
         return 1
